@@ -1,5 +1,6 @@
 import MosdnsVerif.Base.Hex
 import MosdnsVerif.Model.C20
+import MosdnsVerif.Model.C20Pool
 
 namespace Driver.C20
 open Model.C20
@@ -23,7 +24,15 @@ def runLenient (c : Cfg) : St → List Label → Option St
     | none => if l = .mRecv then runLenient c s ls else none
     | some s' => runLenient c s' ls
 
-/-- `sched <pAns> <sAns> <standby> <label,label,...>`: run the schedule; it must be
+/-- one borrow of the pooled timer: `f` the duration passes, `r` the holder receives the tick, `-` nothing -/
+def borrow? (s : String) : Option (List Model.C20Pool.Use) :=
+  if s == "-" then some [] else
+  s.toList.mapM (fun c => if c == 'f' then some .fire else if c == 'r' then some .recv else none)
+
+/-- `pool <borrow;borrow;...>` (oldest first): the timer `pool.GetTimer` hands out after these borrows of it,
+with the draining `ReleaseTimer` the facts guard demands.
+
+`sched <pAns> <sAns> <standby> <label,label,...>`: run the schedule; it must be
 enabled step by step. Output: result, whether the secondary was started. -/
 def handle : List String → String
   | ["sched", p, s, sb, ls] =>
@@ -33,6 +42,12 @@ def handle : List String → String
       | none => "not-enabled"
       | some st => s!"{showRes st.result} secStarted={Hex.showBool (secStarted st)}"
     | _, _, _, _ => "bad-op"
+  | ["pool", hist] =>
+    match (hist.splitOn ";").mapM borrow? with
+    | some bs =>
+      let t := Model.C20Pool.handedOut true bs.reverse
+      s!"armed={Hex.showBool t.armed} tick={Hex.showBool t.tick}"
+    | none => "bad-op"
   | _ => "bad-op"
 
 end Driver.C20
